@@ -6,17 +6,32 @@ EXPLANATION = (
     "Decides the lexical half deductively on the real lexer functions: token spans are ordered, "
     "within the body and non-empty except for EOF (which starts exactly at the end), the gap "
     "skipped by read_next_token is advanced over only by its ignored-character branches, every "
-    "reader starts at the requested offset and keeps the line accounting. Kind-specific grammar "
+    "reader starts at the requested offset and keeps the line accounting. Every Parser method is "
+    "under a generated contract (contracts/parser.py): it raises only GraphQLSyntaxError, writes "
+    "only the lexer cursor and the token counter, the counter never decreases and is within "
+    "max_tokens whenever a token was counted. Kind-specific grammar "
     "predicates (Name/Int/Float/String) and the parser's information frame are added as the "
     "contracts are strengthened; what is not yet decided is listed under 'unverified'.")
 UNVERIFIED = [
     "full conformance of each token kind to the lexical grammar (look-ahead restrictions, longest match, decoded values)",
     "strip_ignored_characters (idempotence, token stream preservation)",
-    "Parser reads only kind/value of tokens; token limit accounting in advance_lexer",
+    "Parser reads only kind/value of tokens (information frame); the token limit is decided one way: "
+    "a parse that returns has counted every non-EOF token once and is within the limit "
+    "(advance_lexer and the TOKLIM clauses of every Parser method); that a document within the limit "
+    "is never rejected for it follows from advance_lexer's raise condition but is not stated as a clause",
+    "Lexer.advance / Lexer.lookahead (linked token chain): assumed contract",
 ]
 TRUSTED = []
 ASSUMPTIONS = [A["A1"], A["A2"], A["A3"], A["A4"], A["A8"], A["ALIAS"], A["ENGINE"]]
-LIFTERS = []
+LIFTERS = ["props.C09:lift"]
+
+
+def lift(model, req):
+    """Parser obligations (token limit, frame): replay over the grammar corpus on the entry points."""
+    if ".parser." in str(req.get("target", "")).replace(":", "."):
+        from .parser_replay import search
+        return search()
+    return {"confirmed": False}
 
 
 def extra_obligations(world, tier, seed):
